@@ -160,13 +160,13 @@ theorem clean_encMap {α} (f : α → Json) (h : ∀ a, Clean (f a) = true) (m :
 
 /-! ### windows -/
 theorem decPWC_encPWC (p : PartWinCkpt) : decPWC (encPWC p) = some p := by
-  simp [decPWC, encPWC, req, optF, List.lookup, decList_encList encSE decSE decSE_encSE, decOptInt, decOptNat]
+  simp [decPWC, encPWC, req, optF, dflt, decNat_int, List.lookup, decList_encList encSE decSE decSE_encSE, decOptInt, decOptNat]
 
 theorem clean_encPWC (p : PartWinCkpt) : Clean (encPWC p) = true := by
   simp [encPWC, Clean, CleanO, clean_encList encSE clean_encSE, clean_encOptInt, clean_encOptNat]
 
 theorem decWC_encWC (w : WindowCkpt) : decWC (encWC w) = some w := by
-  simp [decWC, encWC, req, optF, List.lookup, decList_encList encSE decSE decSE_encSE, decOptInt, decOptNat,
+  simp [decWC, encWC, req, optF, dflt, decNat_int, List.lookup, decList_encList encSE decSE decSE_encSE, decOptInt, decOptNat,
     decMap_encMap encPWC decPWC decPWC_encPWC]
 
 theorem clean_encWC (w : WindowCkpt) : Clean (encWC w) = true := by
@@ -179,18 +179,26 @@ theorem decStack_encStack (s : StackCkpt) : decStack (encStack s) = some s := by
 theorem clean_encStack (s : StackCkpt) : Clean (encStack s) = true := by
   simp [encStack, Clean, CleanO, clean_encSE, clean_encOptStr]
 
+theorem decAB_encAB (p : Nat × SerEvent) : decAB (encAB p) = some p := by
+  simp [decAB, encAB, decNat_int, decSE_encSE]
+
+theorem clean_encAB (p : Nat × SerEvent) : Clean (encAB p) = true := by
+  simp [encAB, Clean, CleanL, clean_encSE]
+
 theorem decRun_encRun (r : RunCkpt) : decRun (encRun r) = some r := by
-  simp [decRun, encRun, req, optF, List.lookup, decNat_int, decBool, decOptInt,
+  simp [decRun, encRun, req, optF, dflt, List.lookup, decNat_int, decBool, decOptInt,
+    decOpt_encOpt (encList encAB) (decList decAB) (decList_encList encAB decAB decAB_encAB) (by simp [encList]),
     decList_encList encStack decStack decStack_encStack, decMap_encMap encSE decSE decSE_encSE,
     decOpt_encOpt encSV decSV decSV_encSV encSV_ne_null,
     decOpt_encOpt (encList encSE) (decList decSE) (decList_encList encSE decSE decSE_encSE) (by simp [encList])]
 
 theorem clean_encRun (r : RunCkpt) : Clean (encRun r) = true := by
   simp [encRun, Clean, CleanO, clean_encList encStack clean_encStack, clean_encMap encSE clean_encSE,
-    clean_encOptInt, clean_encOpt encSV clean_encSV, clean_encOpt (encList encSE) (clean_encList encSE clean_encSE)]
+    clean_encOptInt, clean_encOpt encSV clean_encSV, clean_encOpt (encList encSE) (clean_encList encSE clean_encSE),
+    clean_encOpt (encList encAB) (clean_encList encAB clean_encAB)]
 
 theorem decSase_encSase (s : SaseCkpt) : decSase (encSase s) = some s := by
-  simp [decSase, encSase, req, optF, List.lookup, decNat_int, decOptInt,
+  simp [decSase, encSase, req, optF, dflt, List.lookup, decNat_int, decOptInt,
     decList_encList encRun decRun decRun_encRun,
     decMap_encMap (encList encRun) (decList decRun) (decList_encList encRun decRun decRun_encRun)]
 
@@ -205,8 +213,15 @@ theorem decJE_encJE (p : Int × SerEvent) : decJE (encJE p) = some p := by
 theorem clean_encJE (p : Int × SerEvent) : Clean (encJE p) = true := by
   simp [encJE, Clean, CleanL, clean_encSE]
 
+theorem decQE_encQE (q : QEntry) : decQE (encQE q) = some q := by
+  simp [decQE, encQE, decInt, decNat_int, decStr]
+
+theorem clean_encQE (q : QEntry) : Clean (encQE q) = true := by
+  simp [encQE, Clean, CleanL]
+
 theorem decJoin_encJoin (j : JoinCkpt) : decJoin (encJoin j) = some j := by
-  simp [decJoin, encJoin, req, List.lookup, decInt,
+  simp [decJoin, encJoin, req, optF, dflt, decNat_int, decOptInt, List.lookup, decInt,
+    decOpt_encOpt (encList encQE) (decList decQE) (decList_encList encQE decQE decQE_encQE) (by simp [encList]),
     decMap_encMap (encMap (encList encJE)) (decMap (decList decJE))
       (decMap_encMap (encList encJE) (decList decJE) (decList_encList encJE decJE decJE_encJE)),
     decList_encList Json.str decStr (by simp [decStr]), decMap_encMap Json.str decStr (by simp [decStr])]
@@ -214,16 +229,17 @@ theorem decJoin_encJoin (j : JoinCkpt) : decJoin (encJoin j) = some j := by
 theorem clean_encJoin (j : JoinCkpt) : Clean (encJoin j) = true := by
   simp [encJoin, Clean, CleanO,
     clean_encMap (encMap (encList encJE)) (clean_encMap (encList encJE) (clean_encList encJE clean_encJE)),
-    clean_encList Json.str (by simp [Clean]), clean_encMap Json.str (by simp [Clean])]
+    clean_encList Json.str (by simp [Clean]), clean_encMap Json.str (by simp [Clean]), clean_encOptInt,
+    clean_encOpt (encList encQE) (clean_encList encQE clean_encQE)]
 
 theorem decSrcWm_encSrcWm (s : SrcWmCkpt) : decSrcWm (encSrcWm s) = some s := by
-  simp [decSrcWm, encSrcWm, req, optF, List.lookup, decInt, decOptInt]
+  simp [decSrcWm, encSrcWm, req, optF, dflt, decNat_int, List.lookup, decInt, decOptInt]
 
 theorem clean_encSrcWm (s : SrcWmCkpt) : Clean (encSrcWm s) = true := by
   simp [encSrcWm, Clean, CleanO, clean_encOptInt]
 
 theorem decWm_encWm (w : WmCkpt) : decWm (encWm w) = some w := by
-  simp [decWm, encWm, req, optF, List.lookup, decOptInt, decMap_encMap encSrcWm decSrcWm decSrcWm_encSrcWm]
+  simp [decWm, encWm, req, optF, dflt, decNat_int, List.lookup, decOptInt, decMap_encMap encSrcWm decSrcWm decSrcWm_encSrcWm]
 
 theorem clean_encWm (w : WmCkpt) : Clean (encWm w) = true := by
   simp [encWm, Clean, CleanO, clean_encOptInt, clean_encMap encSrcWm clean_encSrcWm]
